@@ -3,8 +3,7 @@
     Models: Store/Priv.v (catalog grants, GRANT/REVOKE/role executors, PrivilegeChecker, session state) and
     Store/PrivPaths.v (the access-path table of the executor). *)
 From Coq Require Import List Bool String.
-From VibeSQL Require Import Store.Priv Store.PrivLaws Store.PrivFixed Store.PrivFixedLaws Store.PrivPaths Store.PrivPathsLaws
-  Store.PrivCombinedLaws.
+From VibeSQL Require Import Store.Priv Store.PrivLaws Store.PrivPaths Store.PrivPathsLaws Store.PrivCombinedLaws.
 Import ListNotations.
 Open Scope string_scope.
 
@@ -92,40 +91,33 @@ Theorem C26_no_grant_no_gain : forall h s r obj q,
 Proof. exact no_grant_no_gain. Qed.
 Print Assumptions C26_no_grant_no_gain.
 
-(** ... but GRANT asks for no authority at all: its outcome is independent of the session role and of the
-    security flag (KNOWN: grant-without-authority), so "a role cannot raise its own privileges" is false *)
-Theorem C26_grant_ignores_session : forall s role sec privs ot obj grantees wgo,
-  snd (exec_grant (set_security (set_role s role) sec) privs ot obj grantees wgo) =
-  snd (exec_grant s privs ot obj grantees wgo) /\
-  forall r o q,
-    has_privilege (fst (exec_grant (set_security (set_role s role) sec) privs ot obj grantees wgo)) r o q =
-    has_privilege (fst (exec_grant s privs ot obj grantees wgo)) r o q.
-Proof. exact grant_ignores_session. Qed.
-Print Assumptions C26_grant_ignores_session.
+(** GRANT needs authority (fix "grant-requires-authority"): a GRANT that succeeds under security for a
+    non-administrator was covered, privilege by privilege, by a grant option of the session role *)
+Theorem C26_grant_success_authorised : forall s privs ot obj grantees wgo s',
+  exec_grant s privs ot obj grantees wgo = (s', ROk) ->
+  st_security s = true -> is_admin (current_role s) = false ->
+  exists actual, grant_object_check s privs ot obj = inl actual /\
+  forall p, In p (expand privs actual) ->
+    exists g, In g (st_grants s) /\ g_object g = obj /\ g_grantee g = current_role s /\ g_priv g = p /\ g_wgo g = true.
+Proof. exact grant_success_authorised. Qed.
+Print Assumptions C26_grant_success_authorised.
 
-Theorem C26_no_self_escalation_refuted :
-  check_privilege esc_state "T" (PSelect None) = false /\
-  is_admin (current_role esc_state) = false /\
-  let s' := fst (step esc_state (OGrant [PSelect None] OTable "T" ["R1"] false)) in
-  snd (step esc_state (OGrant [PSelect None] OTable "T" ["R1"] false)) = ROk /\
-  check_privilege s' "T" (PSelect None) = true.
-Proof. exact self_grant_escalates. Qed.
-Print Assumptions C26_no_self_escalation_refuted.
-
-(** after the proposed repair of GRANT (fixes/C26-grant-requires-authority.patch, Store/PrivFixed.v): whatever
-    statements a non-administrator session without grant option on [obj] issues, no role ends up with a
-    privilege on [obj] that it did not hold before *)
-Theorem C26_fixed_grant_no_escalation : forall h s r obj,
+(** no self-escalation (was [C26_no_self_escalation_refuted] while GRANT ignored the session): whatever statements
+    a non-administrator session without grant option on [obj] issues - GRANT, REVOKE, role DDL, checks; not the
+    host-API calls [set_role] / security switch - no role ends up with a privilege on [obj] that it did not hold
+    before.  [PrivLaws.self_grant_refused] is the former witness, now refused. *)
+Theorem C26_no_self_escalation : forall h s r obj,
   powerless s r obj -> forallb session_op h = true ->
-  forall r' q, has_privilege (exec_fixed s h) r' obj q = true -> has_privilege s r' obj q = true.
-Proof. exact fixed_grant_no_escalation. Qed.
-Print Assumptions C26_fixed_grant_no_escalation.
+  forall r' q, has_privilege (exec s h) r' obj q = true -> has_privilege s r' obj q = true.
+Proof. exact no_escalation. Qed.
+Print Assumptions C26_no_self_escalation.
 
-Theorem C26_fixed_grant_same_for_admin : forall s privs ot obj grantees wgo,
+(** for administrators and while security is disabled GRANT is what it was before the fix *)
+Theorem C26_grant_same_for_admin : forall s privs ot obj grantees wgo,
   st_security s = false \/ is_admin (current_role s) = true ->
-  exec_grant_fixed s privs ot obj grantees wgo = exec_grant s privs ot obj grantees wgo.
-Proof. exact fixed_grant_same_for_admin. Qed.
-Print Assumptions C26_fixed_grant_same_for_admin.
+  exec_grant s privs ot obj grantees wgo = exec_grant_before s privs ot obj grantees wgo.
+Proof. exact grant_same_for_admin. Qed.
+Print Assumptions C26_grant_same_for_admin.
 
 (** ** the catalog operations *)
 Theorem C26_add_then_has : forall G g, has_privilege_in (add_grant G g) (g_grantee g) (g_object g) (g_priv g) = true.
